@@ -10,18 +10,23 @@ let int_of_z = function Z0 -> 0 | Zpos p -> int_of_pos p | Zneg p -> - (int_of_p
 let byte_tab = Array.init 256 z_of_int
 let zb n = byte_tab.(n land 255)
 
+let hexv c = if c <= '9' then Char.code c - 48 else (Char.code c lor 32) - 87
 let unhex (s : string) : z list =
   if s = "-" || s = "~" then [] else begin
     let n = String.length s / 2 in
     let r = ref [] in
-    for i = n - 1 downto 0 do r := zb (int_of_string ("0x" ^ String.sub s (2 * i) 2)) :: !r done;
+    for i = n - 1 downto 0 do r := zb (hexv s.[2 * i] * 16 + hexv s.[2 * i + 1]) :: !r done;
     !r
   end
 let hexbuf = Buffer.create 65536
+let hextab = Array.init 256 (fun i -> Printf.sprintf "%02x" i)
+(* bytes are small non-negative Z values: decode without building an OCaml int the slow way *)
+let rec small_pos p acc w = match p with XH -> acc + w | XO q -> small_pos q acc (2 * w) | XI q -> small_pos q (acc + w) (2 * w)
+let byte_of_z = function Z0 -> 0 | Zpos p -> (small_pos p 0 1) land 255 | Zneg p -> (- (small_pos p 0 1)) land 255
 let hex_of (l : z list) : string =
   match l with [] -> "-" | _ ->
     Buffer.clear hexbuf;
-    List.iter (fun b -> Buffer.add_string hexbuf (Printf.sprintf "%02x" ((int_of_z b) land 255))) l;
+    List.iter (fun b -> Buffer.add_string hexbuf hextab.(byte_of_z b)) l;
     Buffer.contents hexbuf
 
 let swp = ref false
@@ -386,6 +391,12 @@ let run_line (lineno : int) (tok : string array) =
    | _ -> raise (Bad ("unknown op " ^ op)));
   add "\n"
 
+let strict = ref false
+let status_ops = ["obj"; "objs"; "ocopy"; "va"; "vaget"; "mdnew"; "mdadd"; "mdaddstr"; "mdaddint"; "mdrm"; "mdget"; "mddflt";
+  "mdcopy"; "mdfreeze"; "cmset"; "cmname"; "cmtype"; "tmnew"; "tmadd"; "csnew"; "csadd"; "csget"; "tsnew"; "tsadd"; "wfh"; "wtm"; "wts";
+  "wend"; "wcs"; "wva"; "wobj"; "wobja"; "wstr"; "wi32"; "wi8"; "w7"; "wsec"; "wvt"; "rfh"; "rtm"; "rts"; "skts"; "rcs"; "skcs"; "rva";
+  "skva"; "robj"; "robja"; "skobj"; "skobja"; "rstr"; "skstr"; "ri32"; "ri8"; "r7"; "rsec"; "rvt"]
+
 let () =
   let file = Sys.argv.(1) in
   if Array.length Sys.argv > 2 then swp := (Sys.argv.(2) = "1");
@@ -398,7 +409,7 @@ let () =
        let line = input_line ic in
        incr lineno;
        if String.length line >= 5 && String.sub line 0 5 = "case " then begin
-         reset (); dead := false;
+         reset (); dead := false; strict := false;
          print_string (Buffer.contents b); Buffer.clear b;
          print_string (line ^ "\n")
        end else begin
@@ -409,7 +420,16 @@ let () =
          | _ ->
            if not !dead then begin
              let mark = Buffer.length b in
-             try run_line !lineno (Array.of_list toks)
+             try
+               run_line !lineno (Array.of_list toks);
+               if List.hd toks = "strict" then strict := true;
+               if !strict && List.mem (List.hd toks) status_ops then begin
+                 (* "<lineno> <op> <status>..." *)
+                 let line = Buffer.sub b mark (Buffer.length b - mark) in
+                 match String.split_on_char ' ' (String.trim line) with
+                 | _ :: _ :: stt :: _ -> (match int_of_string_opt stt with Some n when n <> 0 -> dead := true | _ -> ())
+                 | _ -> ()
+               end
              with
              | Bad m -> Buffer.truncate b mark; add (Printf.sprintf "%d %s MODEL-UNDEFINED %s\n" !lineno (List.hd toks) m); dead := true
              | Stack_overflow -> Buffer.truncate b mark; add (Printf.sprintf "%d %s MODEL-STACK\n" !lineno (List.hd toks)); dead := true
